@@ -39,7 +39,7 @@ ASSUMPTIONS = [
 
 def plan(tier: str) -> dict:
     if tier == "quick":
-        return {"runs": 200, "wall_s": 170, "task_timeout": 400}
+        return {"runs": 640, "wall_s": 170, "task_timeout": 400}
     return {"runs": 4000, "wall_s": 1700, "task_timeout": 900}
 
 
